@@ -5,6 +5,7 @@ package main
 import (
 	"fmt"
 	"go/constant"
+	"go/token"
 	"go/types"
 	"math/big"
 	"strings"
@@ -779,12 +780,28 @@ func (e *Env) call(x *Expr) Val {
 			fail("usage: %s(<interface value>, \"*T\")", name)
 		}
 		tn := x.Args[1].Str
+		if isLoc && strings.HasPrefix(tn, "map[") {
+			// a ghost location read as a map of the written type (universe key/value types only)
+			tv, err := types.Eval(token.NewFileSet(), e.pkg, token.NoPos, tn)
+			if err != nil {
+				fail("cast: %v", err)
+			}
+			return Val{T: b.T, Sort: "Loc", GoT: tv.Type}
+		}
 		ptr := strings.HasPrefix(tn, "*")
 		tn = strings.TrimPrefix(tn, "*")
 		if e.pkg == nil {
 			fail("%s: no package scope", name)
 		}
 		obj := e.pkg.Scope().Lookup(tn)
+		if i := strings.LastIndex(tn, "."); i > 0 {
+			// qualified: the named type of an imported package (by package name)
+			for _, imp := range e.pkg.Imports() {
+				if imp.Name() == tn[:i] {
+					obj = imp.Scope().Lookup(tn[i+1:])
+				}
+			}
+		}
 		tobj, ok := obj.(*types.TypeName)
 		if !ok {
 			fail("%s: unknown type %s", name, tn)
@@ -811,6 +828,12 @@ func (e *Env) call(x *Expr) Val {
 		ee, ok := e.g.loopEntryEnv[int(x.Args[0].Int.Int64())]
 		if !ok {
 			fail("atentry(%s, ..): that loop has not been entered at this point", x.Args[0].Int)
+		}
+		ee = ee.child()
+		for n, bv := range e.vars {
+			if strings.HasPrefix(bv.T, "q!") {
+				ee.vars[n] = bv // variables bound by an enclosing quantifier keep their meaning
+			}
 		}
 		v := ee.tr(x.Args[1])
 		if seqLike(v) && (v.GoT == nil || !isByteSlice(v.GoT)) {
